@@ -32,6 +32,11 @@ def coords(g):
         la0, lo0 = r.choice((52.0, -33.5, 7.25)), r.choice((13.0, 151.25))
         lat = [la0 + r.randrange(-40, 41) * 2.0 ** -12 for _ in range(n)]
         lon = [lo0 + r.randrange(-40, 41) * 2.0 ** -12 for _ in range(n)]
+    elif g.get("space") == "decimal":
+        # station coordinates as people write them: not representable in
+        # single precision (the grid keeps float32, the model likewise)
+        lat = [round(r.uniform(-80, 80), 2) for _ in range(n)]
+        lon = [round(r.uniform(-170, 170), 2) for _ in range(n)]
     else:
         lat = [r.randrange(-320, 321) * 0.25 for _ in range(n)]
         lon = [r.randrange(-700, 701) * 0.25 for _ in range(n)]
@@ -39,6 +44,10 @@ def coords(g):
     if g["tstep"] == "hours":
         # "hours since 1800": large offsets, 6-hourly (exact in float32)
         ts = [1700000.0 + 6.0 * k for k in range(T)]
+    elif g["tstep"] == "decimal":
+        # decimal years, monthly
+        y0 = r.choice((1948.0, 2001.0))
+        ts = [y0 + k / 12.0 for k in range(T)]
     elif g["tstep"] == "irregular":
         t, ts = t0, []
         for _ in range(T):
@@ -117,6 +126,7 @@ class C13(Machine):
                    "dense_station_network", "window_dict_reused",
                    "regular_grid", "loaded_from_file",
                    "view_edited_before_window_change",
+                   "coordinates_not_float32_exact",
                    "non_float64_observable")
     real_vs_stub = {"real": ["Data, ClimateData, GeoGrid (constructors, "
                              "Load and its NetCDF import code, set_window, "
@@ -127,8 +137,10 @@ class C13(Machine):
                              "Dataset) is an in-process stand-in serving the "
                              "run's samples: no HDF5 backend exists here"]}
     assumptions = [
-        "coordinates and window bounds are generated exactly representable "
-        "in float32, so closed-window membership does not hinge on rounding",
+        "coordinates are either generated exactly representable in float32 "
+        "or (decimal stations / decimal years) compared as the grid stores "
+        "them, in float32; window bounds are derived from the stored values "
+        "and never fall within rounding distance of a sample they exclude",
         "windows with exactly one degenerate spatial axis are not generated "
         "(statement and docstring read differently there)",
         "a window selecting no sample or no node is a refused call "
@@ -151,9 +163,10 @@ class C13(Machine):
         n = a.randrange(2, 11)
         cls = a.choice(("ClimateData",) * 4 + ("Data",))
         g = {"T": T, "n": n, "gseed": a.randrange(10 ** 9),
-             "tstep": a.choice(("regular", "regular", "irregular", "hours")),
+             "tstep": a.choice(("regular", "regular", "irregular", "hours",
+                                "decimal")),
              "space": a.choice(("wide", "wide", "regular", "regular",
-                                "dense"))}
+                                "dense", "decimal"))}
         cfg = {"lru": lru, "class": cls,
                "cycle": a.choice((1, 2, 3, 4, 5, 7, 12, 12, 13)),
                "anomalies": a.random() < 0.3, "xseed": a.randrange(10 ** 9),
@@ -223,6 +236,19 @@ class C13(Machine):
                     max(hi, float(np.median(vals)) + 40 * u)
             if lo == hi:
                 hi = lo + 0.125 * u      # keep the axis non-degenerate
+            # a bound is either exactly a stored sample or well away from
+            # every sample (decimal coordinates can put "median - 40" within
+            # single-precision rounding of a station)
+            for _ in range(4):
+                near = [v for v in vals if 0 < abs(v - lo) < 1e-3 * u]
+                if not near:
+                    break
+                lo -= 0.03125 * u
+            for _ in range(4):
+                near = [v for v in vals if 0 < abs(v - hi) < 1e-3 * u]
+                if not near:
+                    break
+                hi += 0.03125 * u
             if ax["di"] == 0.0 or ax["dj"] == 0.0:
                 R.probe("window_bound_on_sample")
             return float(lo), float(hi)
@@ -292,7 +318,8 @@ class C13(Machine):
         w0 = None
         held = {}                  # the caller's own window dictionary
         if cfg["init_window"]:
-            w0 = self._resolve(cfg["window0"], time, lat, lon, R)
+            w0 = self._resolve(cfg["window0"], model.time, model.lat,
+                               model.lon, R)
             tm, sm = model.masks(w0)
             if not tm.any() or not sm.any():
                 w0 = None
@@ -328,6 +355,8 @@ class C13(Machine):
             R.probe("dense_station_network")
         if g.get("space") == "regular":
             R.probe("regular_grid")
+        if "decimal" in (g.get("space"), g["tstep"]):
+            R.probe("coordinates_not_float32_exact")
         if g["T"] % cfg["cycle"]:
             R.probe("cycle_not_dividing")
         self.cls = cls
@@ -349,7 +378,8 @@ class C13(Machine):
                     v[...] = 77          # valid in every dtype
                     R.probe("view_edited_before_window_change")
             if k == "set_window":
-                w = self._resolve(op["w"], time, lat, lon, R)
+                w = self._resolve(op["w"], model.time, model.lat, model.lon,
+                                  R)
                 tm, sm = model.masks(w)
                 if op.get("alias"):
                     held.clear()
